@@ -1,9 +1,9 @@
 """C06 — deletion analyses report the optimum of each knocked-out model (bounded stand-in driver).
 
 Models: seeded small networks with gene rules (`bcc.c06_models`): "growth" networks (uptake -> redundant routes with
-capacities -> biomass, optional forced maintenance drain so that some knock-outs are infeasible) and arbitrary random
-networks (`bcc.gen.random_model`: forced fluxes, infinite bounds, min direction, two-term objectives, infeasible and
-unbounded wild types).  Rules are random and/or trees with <= 4 leaves over 2..5 shared genes.
+capacities -> biomass, optional forced maintenance drain so that some knock-outs are infeasible; a few with the large
+bounds opened to infinity so that the wild type and many knock-outs are unbounded) and arbitrary random networks
+(`bcc.gen.random_model`: forced fluxes, infinite bounds, min direction, two-term objectives, infeasible wild types).  Rules are random and/or trees with <= 4 leaves over 2..5 shared genes.
 
 For every model a rotating set of calls to single_/double_ gene_/reaction_deletion (lists: None = all, partial, with
 repeats inside a list and between the two lists of a double deletion; given as objects, ids or mixed; method fba or
@@ -349,7 +349,7 @@ def _model_task(args):
     _quiet()
     rng = random.Random(seed)
     c = rng.random()
-    spec = M.growth_spec(rng) if c < 0.65 else M.random_spec(rng, safe=c < 0.8)
+    spec = M.growth_spec(rng) if c < 0.62 else M.unbounded_spec(rng) if c < 0.68 else M.random_spec(rng, safe=c < 0.82)
     oracle = Oracle(spec)
     st, wt = oracle.opt(frozenset())
     calls = make_calls(spec, rng, st, tier)
@@ -379,7 +379,7 @@ def run(tier, seed):
     import multiprocessing as mp
     t0 = time.time()
     rng = random.Random(seed)
-    n_models = 150 if tier == "quick" else 1400
+    n_models = 180 if tier == "quick" else 1500
     tasks = [(i, rng.randrange(10 ** 9), tier) for i in range(n_models)]
     # non-daemonic workers (the code under test starts its own pools inside them)
     with ProcessPoolExecutor(min(16, os.cpu_count() or 1), mp_context=mp.get_context("fork")) as ex:
